@@ -110,3 +110,31 @@ Theorem C12_bin_built_uids_preserved :
           |}) (bfs_all D F).
 Proof. exact built_uids_preserved. Qed.
 
+
+(* ==== WeakDom::from_raw (dom.into_raw()) (Model/DomRaw.v, Proofs/DomRawFacts.v): for every well-formed DOM — hence every DOM a
+   history of operations produces — whose `UniqueId` key only holds UniqueId values, rebuilding the DOM from its raw parts does
+   not panic, keeps table and root, and rebuilds an id set with exactly the members of the set the DOM maintained, whatever
+   the iteration order of the table *)
+From RbxVerif Require Import DomRaw DomRawFacts.
+From Coq Require Import Permutation.
+
+Theorem C12_raw_roundtrip : forall d,
+  WF d -> NoDup (keys (d_insts d)) -> uid_typed (d_insts d) ->
+  exists us, from_raw (fst (into_raw d)) (snd (into_raw d)) = Ok (mkDom (d_insts d) (d_root d) us) /\
+             forall u, mem u us = mem u (d_uids d).
+Proof. exact raw_roundtrip. Qed.
+
+Theorem C12_raw_roundtrip_rep : forall d a,
+  Rep d a -> uid_typed (d_insts d) ->
+  exists us, from_raw (d_root d) (d_insts d) = Ok (mkDom (d_insts d) (d_root d) us) /\
+             forall u, mem u us = mem u (d_uids d).
+Proof. exact raw_roundtrip_rep. Qed.
+
+Theorem C12_raw_order_irrelevant : forall d m',
+  WF d -> NoDup (keys (d_insts d)) -> uid_typed (d_insts d) -> Permutation (d_insts d) m' ->
+  exists us, raw_uids m' [] = Some us /\ forall u, mem u us = mem u (d_uids d).
+Proof. exact raw_order_irrelevant. Qed.
+
+Theorem C12_raw_duplicate_panics :
+  from_raw 1 [(1, mkInst 0 [2] 0 0 [(UIDKEY, PUid 7)]); (2, mkInst 1 [] 0 0 [(UIDKEY, PUid 7)])] = Panic.
+Proof. exact raw_duplicate_panics. Qed.
